@@ -543,6 +543,8 @@ class Interp:
                 return v
             if attr == "is_cuda":
                 return False
+            if attr == "size" and NUMPY_SIZE_ATTR:
+                return _NumelOrSize(v)
             if hasattr(STensor, attr):
                 return getattr(v, attr)
             if attr.startswith("_"):
@@ -1059,6 +1061,11 @@ class Interp:
         if isinstance(b, EnumVal) and isinstance(b.value, int):
             b = b.value
         if isinstance(a, STensor) or isinstance(b, STensor):
+            if NUMPY_SIZE_ATTR:  # numpy model: sequences broadcast against arrays
+                if isinstance(a, (tuple, list)):
+                    a = STensor.from_nested(list(a))
+                if isinstance(b, (tuple, list)):
+                    b = STensor.from_nested(list(b))
             if t is ast.MatMult:
                 return symt.matmul(a, b)
             if t is ast.BitAnd and isinstance(a, STensor):
@@ -1780,6 +1787,21 @@ def _range(*a):
 
 EXTERNAL_ISINSTANCE: Dict[str, Callable[[Any], bool]] = {}
 FORMAT_HOOK = None  # optional: format(number, spec) in the text-header model
+NUMPY_SIZE_ATTR = False  # numpy model installed: ``a.size`` is the element count (ndarray) *and* callable (torch ``t.size()``)
+
+
+class _NumelOrSize(int):
+    """``x.size``: ndarray attribute (number of elements) that can still be called like ``Tensor.size(dim)``."""
+
+    def __new__(cls, t):
+        self = int.__new__(cls, t.numel())
+        self._t = t
+        return self
+
+    def __call__(self, *a, **k):
+        return self._t.size(*a, **k)
+
+
 STR_HOOK = None  # optional: str() of numbers in the numpy/text-header model (sa/iomodel.py)
 
 
